@@ -1094,6 +1094,9 @@ func TestVerifC13(t *testing.T) {
 	// ---- full valid documents of every version (shared generator)
 	h.validDocs()
 
+	// ---- the same with boundary values and port vectors (round 6)
+	h.valueDocs()
+
 	// ---- random mutations of the golden inputs
 	n := out.Scale(700, 6000)
 	for i := 0; i < n; i++ {
